@@ -121,3 +121,120 @@ Print Assumptions C17_projection_decidable.
 Theorem C17_examples : nonvacuous.
 Proof. exact nonvacuous_holds. Qed.
 Print Assumptions C17_examples.
+
+(* ======================= the replay half (Th 4) =======================
+
+   Vocabulary (coq/C17/Replay.v, Theory8.v, Theory9.v): [build strict T AT t] is the model of duke's
+   tree-building visitor (visitor/implementations/tree.rs) fed with the events [t] of one class:
+   which visit call an attribute's reader arm makes, which tree field that call stores into and how
+   (insert_if_empty / assignment / extend / push) come from the generated AcceptTable.v; Err where the
+   real builder errs (`only one X attribute is allowed`) or where [t] is no visitor protocol at all.
+   [accept_class T AT v tree] is the model of ClassFile::accept and the accept() functions below it,
+   driven by the generated list of their statements (order, interest flag, emptiness guard, visit
+   call).  [accept_ok T AT] is the finite check of those tables against the reader's dispatch tables.
+   [sim_trace]: the attribute-level events of one item as a multiset, Code / record components /
+   fields / methods by index and header with equivalent contents, a table visited after the loop by
+   the rows it holds.  [v_full T]: every interest, nothing declined.
+   [build true] ("strict") additionally refuses the three situations in which a tree cannot tell
+   what the reader said: an annotations attribute with no annotations, a LocalVariableTable /
+   LocalVariableTypeTable without rows, an at-most-once attribute that the builder merges or
+   overwrites occurring twice.  [replay_inexact] = "the strict builder refuses". *)
+From FB Require Import C17.Replay C17.AcceptTable C17.Theory8 C17.Theory9 C17.Theory11 C17.Theory13 C17.Theory14.
+
+(* The tables that the translator reads off class_reader.rs, visitor/implementations/tree.rs and
+   tree/{class,field,method,method/code,record}.rs at every check: every attribute the reader
+   delivers is stored by the builder in a field that exactly one statement of accept() reads, with
+   the same visit call, under the interest flag that governs the attribute in the reader, with the
+   emptiness guard that fits the field (Option: if let Some, Vec: !is_empty()); likewise the tables
+   delivered after the loop, unknown attributes, flags, Code, record components, fields, methods;
+   accept() replays nothing else, consults only existing flags, no field twice. *)
+Theorem C17_generated_accept_tables_ok : accept_ok tables accept_tables_gen = true.
+Proof. exact generated_accept_ok. Qed.
+Print Assumptions C17_generated_accept_tables_ok.
+
+(* Th 4a (replay_is_projection): for all tables that pass the finite checks, every event list that
+   the strict tree builder accepts, and every visitor: replaying the tree delivers the projection
+   of the events, up to sim_trace. *)
+Theorem C17_replay_is_projection : forall T AT,
+  tables_ok T = true -> accept_ok T AT = true ->
+  forall (t_full : option (list ev)) tree,
+    build true T AT t_full = Ok tree ->
+    forall v, sim_trace (accept_class T AT v tree) (project T v t_full).
+Proof. exact replay_is_projection. Qed.
+Print Assumptions C17_replay_is_projection.
+
+(* Th 4b (replay_equals_partial_read): on the bytes of a well-formed class — replaying the tree of
+   the full read into a visitor ≈ reading the bytes with that visitor. *)
+Theorem C17_replay_equals_partial_read : forall T AT g c h,
+  tables_ok T = true -> accept_ok T AT = true -> wf g T c h ->
+  forall rest,
+    exists t_full,
+      read_class g T (v_full T) (enc c ++ rest) = Ok (t_full, rest)
+      /\ forall tree, build true T AT t_full = Ok tree ->
+           forall v, exists t_v, read_class g T v (enc c ++ rest) = Ok (t_v, rest)
+                                 /\ sim_trace (accept_class T AT v tree) t_v.
+Proof. exact replay_equals_partial_read. Qed.
+Print Assumptions C17_replay_equals_partial_read.
+
+(* Th 4c (rebuild): replaying a tree into the tree builder reproduces the tree — for every event
+   list the (strict or lenient) builder accepts, without any restriction. *)
+Theorem C17_rebuild : forall T AT,
+  tables_ok T = true -> accept_ok T AT = true ->
+  forall strict t_full tree, build strict T AT t_full = Ok tree ->
+    build false T AT (accept_class T AT (v_full T) tree) = Ok tree.
+Proof. exact rebuild. Qed.
+Print Assumptions C17_rebuild.
+
+(* the strict builder is the lenient one wherever it succeeds *)
+Theorem C17_strict_lenient : forall T AT t_full tree,
+  build true T AT t_full = Ok tree -> build false T AT t_full = Ok tree.
+Proof. exact strict_lenient. Qed.
+Print Assumptions C17_strict_lenient.
+
+(* restricted by the decidable known class *)
+Theorem C17_replay_known : forall T AT,
+  tables_ok T = true -> accept_ok T AT = true ->
+  forall t_full tree, build false T AT t_full = Ok tree -> replay_inexact T AT t_full = false ->
+    forall v, sim_trace (accept_class T AT v tree) (project T v t_full).
+Proof. exact replay_known. Qed.
+Print Assumptions C17_replay_known.
+
+(* all of it for the code as it is, with decidable hypotheses only (wf_b, build = Ok, replay_inexact) *)
+Theorem C17_replay_decidable : forall c, wf_b tables c = true ->
+  forall rest,
+    let t_full := spec_class tables (v_full tables) (header_of c) c in
+    read_class g_len tables (v_full tables) (enc c ++ rest) = Ok (t_full, rest)
+    /\ forall tree, build false tables accept_tables_gen t_full = Ok tree ->
+         build false tables accept_tables_gen (accept_class tables accept_tables_gen (v_full tables) tree) = Ok tree
+         /\ (replay_inexact tables accept_tables_gen t_full = false ->
+             forall v, read_class g_len tables v (enc c ++ rest) = Ok (project tables v t_full, rest)
+                       /\ sim_trace (accept_class tables accept_tables_gen v tree) (project tables v t_full)).
+Proof. exact replay_decidable. Qed.
+Print Assumptions C17_replay_decidable.
+
+(* the known class is not empty, and the restriction is needed: three witnesses (class structure,
+   visitor) on which the class is well-formed, the tree builder succeeds, the strict builder
+   refuses, and replay and read differ.  F20a: `class A` with an empty RuntimeVisibleAnnotations,
+   full visitor.  F20b: a Code with a LocalVariableTable without rows, visitor interested in
+   local_variable_type_table only.  Precondition: RuntimeVisibleAnnotations twice on one class. *)
+Theorem C17_replay_empty_annotations_refuted : refutes w_empty_annotations (v_full tables).
+Proof. exact replay_empty_annotations_refuted. Qed.
+Print Assumptions C17_replay_empty_annotations_refuted.
+
+Theorem C17_replay_rowless_locals_refuted : refutes w_rowless_locals v_only_lvtt.
+Proof. exact replay_rowless_locals_refuted. Qed.
+Print Assumptions C17_replay_rowless_locals_refuted.
+
+Theorem C17_replay_duplicate_refuted : refutes w_duplicate (v_full tables).
+Proof. exact replay_duplicate_refuted. Qed.
+Print Assumptions C17_replay_duplicate_refuted.
+
+(* the unrestricted statement [replay_full] (Theory14.v) is not a theorem *)
+Theorem C17_replay_full_refuted : ~ replay_full.
+Proof. exact replay_full_refuted. Qed.
+Print Assumptions C17_replay_full_refuted.
+
+(* non-vacuity: the javac-17 class of C17_examples is outside the known class and its tree is built *)
+Theorem C17_replay_examples : replay_nonvacuous.
+Proof. exact replay_nonvacuous_holds. Qed.
+Print Assumptions C17_replay_examples.
